@@ -3,6 +3,8 @@ import glob, json, os, sys, time
 from facts import Crate
 
 VERIF = os.path.dirname(os.path.dirname(os.path.abspath(__file__)))
+WORK = os.environ.get('VERIF_WORK') or os.path.join(VERIF, '.work')
+EVID = os.environ.get('VERIF_EVIDENCE_DIR') or os.path.join(VERIF, 'evidence')
 
 
 class Broken(Exception):
@@ -105,8 +107,8 @@ def load_known():
 def finish(rep, tier, t0, level, explanation, assumptions, rule_text, samples, extra_cov=None):
     """Print verdict lines, write replay + evidence files; returns exit code."""
     known = {k['key']: k for k in load_known() if k.get('status') == 'open'}
-    os.makedirs(os.path.join(VERIF, 'evidence'), exist_ok=True)
-    os.makedirs(os.path.join(VERIF, '.work', 'replay'), exist_ok=True)
+    os.makedirs(EVID, exist_ok=True)
+    os.makedirs(os.path.join(WORK, 'replay'), exist_ok=True)
     rc = 0
     n_viol = 0
     n_known = 0
@@ -116,7 +118,7 @@ def finish(rep, tier, t0, level, explanation, assumptions, rule_text, samples, e
             n_known += 1
             continue
         n_viol += 1
-        rp = os.path.join(VERIF, '.work', 'replay', '%s_%d.json' % (rep.pid, n_viol))
+        rp = os.path.join(WORK, 'replay', '%s_%d.json' % (rep.pid, n_viol))
         json.dump(v, open(rp, 'w'), indent=1)
         print('  %s [%s] %s: %s%s' % (v['rule'], v['where'], v['construct'], v['msg'], (' @ ' + v['loc']) if v.get('loc') else ''))
         print('VIOLATION property=%s replay=%s' % (rep.pid, rp))
@@ -142,7 +144,7 @@ def finish(rep, tier, t0, level, explanation, assumptions, rule_text, samples, e
         'property_id': rep.pid, 'tier': tier, 'seed': int(os.environ.get('VERIF_SEED', '0') or 0), 'level': level,
         'coverage': cov, 'assumptions': assumptions, 'wall_s': round(time.time() - t0, 2), 'violations': n_viol,
     }
-    json.dump(ev, open(os.path.join(VERIF, 'evidence', rep.pid + '.json'), 'w'), indent=1)
+    json.dump(ev, open(os.path.join(EVID, rep.pid + '.json'), 'w'), indent=1)
     print('%s: %s  (%d rule instances over %d rules, %d functions, %d programs; %d known findings; %.1fs)' % (
         rep.pid, 'VIOLATED' if rc else 'ok', evaluations, len(rep.instances), len(rep.functions), len(rep.programs), n_known,
         time.time() - t0))
